@@ -29,7 +29,7 @@ Operations (viewgram ids of the subset follow):
 One object set up several times (the model object `SensObj` and the model files survive `cfg` lines):
   `hnew` → a newly constructed object, no sensitivity files on disk;
   `hsetup <use_subset_sens> <n> <set_recompute_sensitivity called with 0|1, or -> <sensitivity_filename set> <subsensitivity_filenames set>
-          <subsets balanced> <sep> ids… / ids… / …` (the sensitivity viewgrams of subset 0 / 1 / …; `sep`: of the `sbin` geometry)
+          <subsets balanced> <sep> <segment range setting> <data max> <TOF range setting> <data max> ids… / ids… / …` (the sensitivity viewgrams of subset 0 / 1 / …; `sep`: of the `sbin` geometry)
           → `ok|refused <recompute_sensitivity after set_up>`: `setUpSens` of the model on the object as the earlier lines left it;
   `hsub <s>`, `htot` → what `get_subset_sensitivity(s)` / `get_sensitivity()` of that object return now (`null`: null pointer), per voxel
           value and bound as for `sens`.
@@ -343,12 +343,14 @@ def stepLine (c : Ctx) (line : String) : Ctx × String :=
   | "cfg" :: rest =>
     ({ zero := keyVal rest "zero" == some "1", nvox := N ((keyVal rest "nvox").getD "0"), sobj := c.sobj, sfiles := c.sfiles }, "ok")
   | ["hnew"] => ({ c with sobj := SensObj.fresh, sfiles := SensFiles.empty }, "ok")
-  | "hsetup" :: useSub :: n :: setter :: totName :: subName :: balanced :: sep :: rest =>
+  | "hsetup" :: useSub :: n :: setter :: totName :: subName :: balanced :: sep :: segSet :: segMax :: tofSet :: tofMax :: rest =>
     let o := if setter == "-" then c.sobj else { c.sobj with recompute := setter == "1" }
     let incs := ((splitSubsets rest).map fun ids => sensImg c (sep == "1") ids).toArray
     let ops := vops c.nvox
     let cfg : SensCfg := { useSub := useSub == "1", n := N n, totName := totName == "1", subName := subName == "1",
-                           accepted := setUpAcceptsSubsets (useSub == "1") (if balanced == "1" then [1, 1] else [1, 2]) }
+                           accepted := setUpAcceptsSubsets (useSub == "1") (if balanced == "1" then [1, 1] else [1, 2]) &&
+                             (segRangeAfterSetUp (segSet.toInt?.getD 0) (segMax.toInt?.getD 0)).isSome &&
+                             (tofRangeAfterSetUp (tofSet.toInt?.getD 0) (tofMax.toInt?.getD 0)).isSome }
     let (acc, o', f') := setUpSens ops cfg (fun s => incs.getD s ops.zero) o c.sfiles
     ({ c with sobj := o', sfiles := f' }, (if acc then "ok " else "refused ") ++ (if o'.recompute then "1" else "0"))
   | ["hsub", s] => (c, fmtVImg c (c.sobj.getSub (N s)))
